@@ -198,7 +198,11 @@ fn traffic_answers(rng: &mut Rng, ts: u8, others: &[u8], n: usize, appetite: u64
             if rng.below(10) >= appetite {
                 "d".to_string()
             } else {
-                let req = *rng.pick(&[RequestType::SdnLow, RequestType::SrdLow, RequestType::FdlStatus, RequestType::SdnHigh]);
+                let req = if rng.chance(1, 4) {
+                    *rng.pick(&crate::codec::ALL_REQ)
+                } else {
+                    *rng.pick(&[RequestType::SdnLow, RequestType::SrdLow, RequestType::FdlStatus, RequestType::SdnHigh])
+                };
                 let h = DataTelegramHeader {
                     da: if rng.chance(1, 4) { 90 + rng.below(20) as u8 } else { *rng.pick(others) },
                     sa: ts,
@@ -309,6 +313,8 @@ pub fn gen(ops: &mut Vec<String>, seed: u64, thorough: bool) {
         let mut next_poll: Vec<i64> = (0..n).map(|i| online_at[i] + 1 + rng.below(period as u64) as i64).collect();
         let mut is_on = vec![false; n];
         let mut fault_budget = if faulty { 6 } else { 0 };
+        // half of the faulty cases have clean crashes only (no corruption, no drops), some of them for good
+        let crash_only = faulty && (case / 3) % 2 == 0;
         let fault_until = horizon / 2;
         loop {
             // next event in global time order
@@ -322,7 +328,7 @@ pub fn gen(ops: &mut Vec<String>, seed: u64, thorough: bool) {
             }
             if fault_budget > 0 && t < fault_until && rng.chance(1, 400) {
                 fault_budget -= 1;
-                match rng.below(3) {
+                match if crash_only { 2 } else { rng.below(3) } {
                     0 => {
                         emit(&mut net, ops, format!("net.corrupt {} {}", t, t + rng.below(6 * slot_t as u64) as i64));
                     }
@@ -335,7 +341,12 @@ pub fn gen(ops: &mut Vec<String>, seed: u64, thorough: bool) {
                         if is_on[v] {
                             emit(&mut net, ops, format!("net.offline {v} {t}"));
                             is_on[v] = false;
-                            online_at[v] = t + (5 + rng.below(60) as i64) * slot_t;
+                            // it restarts a little later — or, in crash-only cases, sometimes never
+                            if crash_only && rng.bool() && is_on.iter().filter(|b| **b).count() >= 1 {
+                                online_at[v] = horizon + 1;
+                            } else {
+                                online_at[v] = t + (5 + rng.below(60) as i64) * slot_t;
+                            }
                             next_poll[v] = online_at[v] + 1;
                         }
                     }
